@@ -67,11 +67,25 @@ def sub_mesh_pattern(item):
     return ok(nt)
 
 
+_PERMS_CACHE = {}
+
+
+def _perms_for(bound):
+    """inputs carry the LENGTH BOUND of the target permutations, not the permutations themselves
+    (shipping 873 permutations with each of a million inputs made the parent the bottleneck)"""
+    if not isinstance(bound, int):
+        return bound
+    if bound not in _PERMS_CACHE:
+        _PERMS_CACHE[bound] = tuple(D.perms_upto(bound))
+    return _PERMS_CACHE[bound]
+
+
 @check("C06.sub_is_strongest")
 def sub_is_strongest(item):
     """Soundness: every occurrence of M restricted to the chosen points is an occurrence
     of the sub-pattern.  Strongest: every further cell is refuted by some permutation."""
     mesh, indices, perms = item
+    perms = _perms_for(perms)
     sm = S.to_spec(mesh)
     idx = sorted(indices)
     sub = S.to_spec(mesh.sub_mesh_pattern(idx))
@@ -104,6 +118,7 @@ def mesh_in_mesh(item):
     """m reported inside M at I  =>  for every perm, every occurrence f of M gives the
     occurrence f.I of m (witnessed by the corresponding points)."""
     small, big, perms = item
+    perms = _perms_for(perms)
     ss, sb = S.to_spec(small), S.to_spec(big)
     occs = list(small.occurrences_in(big))
     flags = {
@@ -134,6 +149,7 @@ def mesh_in_mesh(item):
 def perm_in_mesh(item):
     """A classical pattern inside a mesh pattern / a mesh pattern inside a classical one."""
     perm, big, perms = item
+    perms = _perms_for(perms)
     sb = S.to_spec(big)
     occs = list(perm.occurrences_in(big))
     want = S.occurrences(tuple(perm), sb[0])
@@ -189,17 +205,16 @@ def run(ctx):
             rule="every point subset of mesh patterns of length <=2 (all / 300 seeded in quick), seeded length 3 (incl. dense shadings) and 4; "
                  "non-trivial = proper non-empty subset with a non-empty induced shading")
     ctx.add_sample("C06.sub_mesh_pattern", (D.mesh((3, 2, 1, 0), [(3, 2), (1, 3), (4, 2), (0, 3), (1, 2), (4, 3)]), (0, 1, 3)))
-    t5 = tuple(D.perms_upto(5 if quick else 6))
+    t5 = 5 if quick else 6
     strong = [(m, I, t5) for m in (rng.sample(m2, 300 if quick else 1024) + dense3[:: (3 if quick else 1)] + m3[::3]) for I in subsets(m)]
     ctx.run("C06.sub_is_strongest", strong, chunk=8,
             rule=f"soundness over all perms <= {5 if quick else 6} and 'each extra cell is refuted by the pattern or a one-point extension'")
     # mesh in mesh: pairs
-    tq = tuple(D.perms_upto(5 if quick else 6))
+    tq = 5 if quick else 6
     smalls = m01 + rng.sample(m2, 150 if quick else 600)
     bigs = rng.sample(m2, 100 if quick else 400) + dense3[:: (4 if quick else 1)] + [D.mesh(t, D.random_shading(rng, 3, 0.6)) for t in itertools.permutations(range(3)) for _ in range(3 if quick else 20)]
     pairs = [(s, b, tq) for s in smalls for b in bigs if len(s) <= len(b)]
-    if quick:
-        pairs = rng.sample(pairs, min(len(pairs), 12000))
+    pairs = rng.sample(pairs, min(len(pairs), 12000 if quick else 60000))
     ctx.run("C06.mesh_in_mesh", pairs, chunk=20,
             rule="(small, big) pairs of mesh patterns (small <=2 points, big 2-3 points, dense shadings included); soundness of every reported occurrence "
                  "against all occurrences of big in all perms up to length 5/6; non-trivial = some occurrence reported and small is shaded")
